@@ -1,3 +1,3 @@
 SPECIFICATION GenSpec
-CONSTANTS Ids = {1, 2, 3}  Readers = {1, 2, 3}  MaxOps = 14  MaxVer = 3
+CONSTANTS Ids = {1, 2}  Readers = {1, 2, 3}  MaxOps = 20  MaxVer = 3
 CHECK_DEADLOCK FALSE
